@@ -2,7 +2,7 @@
 From Coq Require Import List ZArith Bool String.
 Import ListNotations.
 Require Import Base Prog Sig Interp InterpFacts Model Validators HasPatcher Contracts State ScnSwitch Switch Loops Gate.
-Require InvModel InvCode Invariant Refine.
+Require InvModel InvCode Invariant Refine Scenario GenSwitch.
 
 (* Every history of switch operations, run on the code generated from deal/_state.py, behaves as the
    two-boolean machine [hist_spec]; any function table, any fuel, any `warn` arguments, either __debug__. *)
@@ -78,6 +78,15 @@ Theorem C07_removed_inv_returns_class : forall (A : Type) (vs : list A) invs,
 Proof. exact Refine.decorate_removed. Qed.
 Print Assumptions C07_disabled_invariants_inert.
 Print Assumptions C07_removed_inv_returns_class.
+
+(* REFUTED at full strength for a generator that is already running (finding C07-F1), on the wrapper regenerated from
+   Contracts._run_iter: gen = g(); next(gen); deal.disable(); next(gen) -- the second step evaluates the post validator, raises its
+   violation and leaves the switch on (the observation text: events, outcome and a snapshot `S <debug><removed>...` per action) *)
+Theorem C07_running_generator_ignores_disable_refuted :
+  Scenario.show_scenario GenSwitch.across_disable =
+  "R g|S 10111|B g {}|V 1 {r:i1}|Y i1|S 10111|R N|S 00111|V 1 {r:i500}|X PostContractError tag=- msg=<> params={r:i500} origin=g cause=- ctx=-|S 10111"%string.
+Proof. exact GenSwitch.running_generator_ignores_disable. Qed.
+Print Assumptions C07_running_generator_ignores_disable_refuted.
 
 (* non-vacuity: a concrete history meets the premises of C07_permanent_final and of C07_enforced_iff_last *)
 Example C07_nonvacuous :
